@@ -391,7 +391,7 @@ type Layout struct {
 
 var seps = []string{" ", "  ", "\n", "\t", " \n ", "\n\n", " ;c\n", ";; x y (\n", "\r\n", " ; \"\n", "\n\n\n",
 	// every character the scanner skips as white space separates tokens equally
-	"\f", "\v", "\u0085", "\u00a0", "\u2028", "\u2029", "\u3000", "\u1680", "\u2003", " \f", "\v ",
+	"\f", "\v", "\u0085", "\u00a0", "\u2028", "\u2029", "\u3000", "\u1680", "\u2003", " \f", "\v ", "\u202f", "\u205f", "\u2000", "\u200a",
 	// a comment runs to the end of its LINE: other control characters inside
 	// it (a bare carriage return, a form feed) do not end it
 	" ; was:\r(zz 1)\n", ";x\ry z\n", "; a\f(b\n", "\r", " \r ", "; c\r\n"}
@@ -669,12 +669,43 @@ func clipText(s string) string {
 	return s
 }
 
+// ---------- nesting depth: the readers have ONE limit ----------
+
+type DeepNest struct {
+	Depth int    `json:"depth"`
+	Shape string `json:"shape"` // parens | brackets | quotes | mixed
+}
+
+func checkDeepNest(d DeepNest, c *vcommon.Ctx) *vcommon.Failure {
+	if d.Depth < 1 || d.Depth > 30000 {
+		return nil
+	}
+	var src string
+	switch d.Shape {
+	case "brackets":
+		src = strings.Repeat("[", d.Depth) + "1" + strings.Repeat("]", d.Depth)
+	case "quotes":
+		src = strings.Repeat("'", d.Depth) + "x"
+	case "mixed":
+		src = strings.Repeat("'(a ", d.Depth/2) + "1" + strings.Repeat(")", d.Depth/2)
+	default:
+		src = strings.Repeat("(list ", d.Depth) + "1" + strings.Repeat(")", d.Depth)
+	}
+	c.Class("shape/" + d.Shape)
+	c.NonTrivial(fmt.Sprintf("%s/%d", d.Shape, d.Depth))
+	return checkModes(Src{B: []byte(src)}, nil)
+}
+
 func TestCheck(t *testing.T) {
 	vcommon.Main(t, "C12",
 		vcommon.S("roundtrip", 160000, 4000000, gen.GenVal(6), checkRoundTrip),
 		vcommon.S("modes", 80000, 2000000, genSource(), checkModes),
 		vcommon.S("layout", 40000, 1000000, genLayout(), checkLayout),
 		vcommon.S("large", 640, 16000, genLarge(), checkLarge),
+		vcommon.S("deep-nesting", 480, 8000, rapid.Custom(func(t *rapid.T) DeepNest {
+			return DeepNest{Depth: rapid.SampledFrom([]int{10, 500, 999, 1000, 1001, 1002, 2500, 5000, 9999, 10000, 10001, 12000}).Draw(t, "depth") + rapid.IntRange(-2, 2).Draw(t, "jitter"),
+				Shape: rapid.SampledFrom([]string{"parens", "brackets", "quotes", "mixed"}).Draw(t, "shape")}
+		}), checkDeepNest),
 		vcommon.S("deep-shared", 2000, 40000, rapid.Custom(func(t *rapid.T) DeepShared {
 			return DeepShared{Depth: rapid.IntRange(1, 140).Draw(t, "depth"), Kind: rapid.SampledFrom([]string{"siblings", "cousins", "thrice"}).Draw(t, "kind")}
 		}), checkDeepShared),
